@@ -1,6 +1,7 @@
 (* Proofs about EQModel.  Statements are fixed by Properties_C16.v. *)
 From Coq Require Import ZArith List Bool Lia Arith.
-Require Import Verif.Base.Atomics Verif.Gen.Gen_execution_queue Verif.Conc.Machine Verif.EQ.EQModel.
+Require Import Verif.Base.Atomics Verif.Gen.Gen_execution_queue Verif.Gen.Gen_execution_queue_sites
+  Verif.Conc.Machine Verif.EQ.EQModel.
 Import ListNotations.
 Local Open Scope Z_scope.
 
@@ -47,6 +48,9 @@ Lemma g_exit_expected : forall e, exit_expected e = e. Proof. reflexivity. Qed.
 Lemma g_exit_desired : exit_desired = 0. Proof. reflexivity. Qed.
 Lemma g_join : forall e, join_waits e = negb (e =? 0). Proof. reflexivity. Qed.
 Lemma g_rb_expected : forall e, rollback_expected e = e. Proof. reflexivity. Qed.
+(* the roll-back of a refused launch is the CAS loop (exactly one compare_exchange_strong site in start_consumer) *)
+Lemma g_rb_kind : rollback_is_fetch_sub = false. Proof. reflexivity. Qed.
+Lemma g_rb_is_cas_loop : match sites_start_consumer with [(KCasS, _, _)] => True | _ => False end. Proof. exact I. Qed.
 Lemma g_keep : forall z, keep_role_while_tickets_out z = negb (z =? 0). Proof. reflexivity. Qed.
 Lemma g_qsize : forall a b, queue_size a b = if b >? a then b - a else 0. Proof. reflexivity. Qed.
 
@@ -71,7 +75,7 @@ Lemma eq_size_is_two_loads : size_is_two_loads = true. Proof. reflexivity. Qed.
 
 Global Opaque signal_amount signal_returns_early launch_accepted rollback_desired rollback_retries poll_nonempty
   poll_limit exit_expected exit_desired join_waits rollback_expected launch_events_init keep_role_while_tickets_out
-  queue_size.
+  queue_size rollback_is_fetch_sub.
 
 (* ---- lists ---- *)
 Lemma nth_error_upd_nth : forall A (f : A -> A) n l m,
@@ -156,7 +160,7 @@ Ltac gen_norm H :=
   repeat first [ rewrite g_early in H | rewrite g_accept0 in H | rewrite g_accept_m1 in H | rewrite g_retry1 in H
                | rewrite g_retry0 in H | rewrite g_nonempty in H | rewrite g_exit_expected in H | rewrite g_join in H
                | rewrite g_rb_expected in H | rewrite g_rb_desired in H | rewrite g_exit_desired in H
-               | rewrite g_limit in H | rewrite g_keep in H | rewrite g_qsize in H ].
+               | rewrite g_limit in H | rewrite g_keep in H | rewrite g_qsize in H | rewrite g_rb_kind in H ].
 
 Ltac step_cases H :=
   unfold step_thread, do_signal, consumer_exit in H; cbv zeta in H; gen_norm H;
@@ -1093,6 +1097,361 @@ Proof.
     exists t. unfold step. rewrite Hth. unfold step_thread. rewrite Epc.
     unfold do_signal. destruct (signal_returns_early (events s)); discriminate.
 Qed.
+
+(* resumption after refused launches, step level: whatever happened before (any number of refused launches, the
+   stale flag set or not), when a consumer activation performs its successful exit CAS every signalled item has been
+   delivered - by this activation or earlier - and the counter is back to "reset by a consumer" *)
+Theorem eq_exit_leaves_nothing_signalled : forall c a f progs s t th seen s', (1 <= c)%nat -> Reach c a f progs s ->
+  nth_error (threads s) t = Some th -> tpc th = CCas seen -> step s t = Some s' -> events s' = 0 ->
+  stale s' = false /\
+  (forall k x, nth_error (cells s') k = Some x -> csig x = true -> (k < ndel s')%nat).
+Proof.
+  intros c a f progs s t th seen s' Hc HR Hth Hpc Hs Hev'. pose proof (reach_all _ _ _ _ _ Hc HR) as HA.
+  assert (Ho : is_owner th = true) by (unfold is_owner; rewrite Hpc; reflexivity).
+  destruct (own_pos_of_owner _ _ _ (a_own _ HA) Hth Ho) as [Hpos _].
+  unfold step in Hs. rewrite Hth in Hs. unfold step_thread in Hs. rewrite Hpc, g_exit_expected, g_exit_desired in Hs.
+  destruct (events s =? seen) eqn:E; inversion Hs; subst; clear Hs; simpl in *; [|lia].
+  apply Z.eqb_eq in E. split; [reflexivity|].
+  pose proof (c_cas _ (a_cov _ HA) _ _ _ Hth Hpc E) as TU.
+  assert (Hnd : ndel s = npop s).
+  { destruct (a_cons _ HA) as [D|(t1 & th1 & H1 & P1)]; [exact D|]. exfalso.
+    assert (O1 : is_owner th1 = true) by (unfold is_owner; rewrite P1; reflexivity).
+    destruct (Nat.eq_dec t1 t) as [->|N]; [rewrite Hth in H1; inversion H1; subst; congruence|].
+    eapply (two_owners_absurd s t th t1 th1); eauto. apply (a_own _ HA). }
+  intros k x Hn Hsig. destruct (Nat.lt_ge_cases k (ndel s)) as [L|L]; [exact L|]. exfalso.
+  rewrite Hnd in L. rewrite (TU _ _ L Hn) in Hsig. discriminate.
+Qed.
+
+(* ... and an accepted launch does create that activation: the launcher hands its ownership to exactly one consumer *)
+Theorem eq_accepted_launch_creates_consumer : forall c a f progs s t th e s', (1 <= c)%nat -> Reach c a f progs s ->
+  nth_error (threads s) t = Some th -> tpc th = PSubmit e ->
+  match faults s with b :: _ => b = false | [] => True end ->
+  step s t = Some s' ->
+  exists t' th', nth_error (threads s') t' = Some th' /\ tpc th' = CStart /\ 0 < events s' /\
+                 owners (threads s') = 1%nat.
+Proof.
+  intros c a f progs s t th e s' Hc HR Hth0 Hpc Hf Hs.
+  assert (HR' : Reach c a f progs s') by (eapply reachable_step; eauto).
+  pose proof (reach_all _ _ _ _ _ Hc HR') as HA'.
+  assert (W : exists t' th', nth_error (threads s') t' = Some th' /\ tpc th' = CStart).
+  { step_setup Hs s t. rewrite Hth0 in Hth. inversion Hth; subst th0. clear Hth. rename Hth0 into Hth.
+    step_cases Hst; try congruence;
+      try (destruct (faults s) as [|b l]; simpl in *; [discriminate | subst; discriminate]).
+    all: try (exists t; eexists; split; [eapply install_self; eauto | reflexivity]).
+    all: exists (length (threads s)); exists consumer_thread; split; [|reflexivity];
+      unfold install; simpl; rewrite nth_error_app2 by (rewrite length_upd_nth; lia);
+      rewrite length_upd_nth, Nat.sub_diag; reflexivity. }
+  destruct W as (t' & th' & H' & P'). exists t', th'. split; [exact H'|]. split; [exact P'|].
+  assert (O : is_owner th' = true) by (unfold is_owner; rewrite P'; reflexivity).
+  apply (own_pos_of_owner _ _ _ (a_own _ HA') H' O).
+Qed.
+
+(* ---- termination once the producers are through ("join() does return") ---- *)
+(* pquiet ("producers quiet"): no thread is between taking a ticket and its fetch_add, and no execute()/signal_push_event() call is still
+   to come - every remaining client op is a join().  (A producer may still be inside start_consumer.) *)
+Definition producer_pc (th : thread) : bool := match tpc th with PPublish _ | PSignal _ => true | _ => false end.
+Definition is_join (o : op) : bool := match o with OJoin => true | _ => false end.
+Definition rest (th : thread) : list op :=
+  match tpc th with Idle => skipn (opi th) (prog th) | _ => skipn (S (opi th)) (prog th) end.
+Definition pquiet_thread (th : thread) : bool := negb (producer_pc th) && forallb is_join (rest th).
+Definition pquiet (s : st) : bool := forallb pquiet_thread (threads s).
+
+Lemma skipn_nth : forall A (l : list A) n c, nth_error l n = Some c -> skipn n l = c :: skipn (S n) l.
+Proof. induction l as [|x l IH]; intros [|n] c H; simpl in *; try discriminate; [inversion H; reflexivity | apply IH; exact H]. Qed.
+
+Lemma forallb_nth : forall A (f : A -> bool) l t x, forallb f l = true -> nth_error l t = Some x -> f x = true.
+Proof. intros A f l t x H Hn. rewrite forallb_forall in H. apply H. eapply nth_error_In; eauto. Qed.
+
+Lemma forallb_upd : forall A (f : A -> bool) l t y, forallb f l = true -> f y = true ->
+  forallb f (upd_nth (fun _ => y) t l) = true.
+Proof.
+  induction l as [|x l IH]; intros [|t] y H Hy; simpl in *; auto;
+    apply andb_true_iff in H; destruct H as [H1 H2]; apply andb_true_iff; split; auto.
+Qed.
+
+Lemma pquiet_idle_op : forall th o, pquiet_thread th = true -> tpc th = Idle -> nth_error (prog th) (opi th) = Some o ->
+  o = OJoin /\ forallb is_join (skipn (S (opi th)) (prog th)) = true.
+Proof.
+  intros th o Q P Hn. unfold pquiet_thread, rest in Q. rewrite P in Q. apply andb_true_iff in Q. destruct Q as [_ Q].
+  rewrite (skipn_nth _ _ _ _ Hn) in Q. simpl in Q. apply andb_true_iff in Q. destruct Q as [Q1 Q2].
+  split; [destruct o; simpl in Q1; try discriminate; reflexivity | exact Q2].
+Qed.
+
+Lemma pquiet_busy_rest : forall th, pquiet_thread th = true -> tpc th <> Idle ->
+  forallb is_join (skipn (S (opi th)) (prog th)) = true.
+Proof.
+  intros th Q P. unfold pquiet_thread, rest in Q. apply andb_true_iff in Q. destruct Q as [_ Q].
+  destruct (tpc th); try exact Q. congruence.
+Qed.
+
+Lemma pquiet_step : forall s t s', pquiet s = true -> step s t = Some s' -> pquiet s' = true.
+Proof.
+  intros s t s' Q Hs. step_setup Hs s t. unfold pquiet, install; simpl. rewrite Hthr.
+  pose proof (forallb_nth _ _ _ _ _ Q Hth) as Qt.
+  assert (NP : producer_pc th = false).
+  { unfold pquiet_thread in Qt. apply andb_true_iff in Qt. destruct Qt as [Qt _]. apply negb_true_iff in Qt. exact Qt. }
+  rewrite forallb_app. apply andb_true_iff. split.
+  - apply forallb_upd; [exact Q|].
+    destruct (tpc th) eqn:Epc; unfold producer_pc in NP; rewrite Epc in NP; try discriminate;
+    [ (* Idle *)
+      step_cases Hst; try congruence;
+        match goal with Hp : tpc th = Idle, H : nth_error (prog th) (opi th) = Some _ |- _ =>
+          destruct (pquiet_idle_op _ _ Qt Hp H) as [Eo Qr]; try discriminate Eo end;
+      unfold pquiet_thread, rest, producer_pc; simpl; exact Qr
+    | (* busy, not a producer pc *)
+      assert (Qr : forallb is_join (skipn (S (opi th)) (prog th)) = true)
+        by (apply pquiet_busy_rest; [exact Qt | rewrite Epc; discriminate]);
+      step_cases Hst; try congruence; unfold pquiet_thread, rest, producer_pc; simpl; try exact Qr;
+        try (rewrite Qr; reflexivity);
+        try (match goal with H : nth_error (prog th) (opi th) = Some OJoin |- _ =>
+               rewrite (skipn_nth _ _ _ _ H); simpl; exact Qr end);
+        try (match goal with H : nth_error (prog th) (opi th) = None |- _ =>
+               apply nth_error_None in H; rewrite skipn_all2 by exact H; reflexivity end) .. ].
+  - destruct (spawned_threads _ _ _ _ _ _ Hst) as [-> | ->]; reflexivity.
+Qed.
+
+(* the measure: 3 per remaining fault-list entry, 6 per ticket not yet popped, and per thread its remaining ops plus a
+   weight of its pc; `cas_late x ev` charges 3 for a CAS that is going to fail because its expected value is out of date *)
+Definition cas_late (x ev : Z) : nat := if x =? ev then 0%nat else 3%nat.
+Definition pcw (ev : Z) (sz : bool) (p : pc) : nat :=
+  match p with
+  | Idle | PPublish _ | PSignal _ => 0
+  | PSubmit e => 14 + cas_late e ev
+  | PRollback e => 15 + cas_late e ev
+  | CStart => 11
+  | CPoll seen => 8 + cas_late seen ev
+  | CSize seen => (if sz then 9 else 7) + cas_late seen ev
+  | CCas seen => 6 + cas_late seen ev
+  | CConsume => 10
+  | CReload => 9
+  end%nat.
+Definition mth (ev : Z) (sz : bool) (th : thread) : nat :=
+  match tpc th with
+  | Idle => length (prog th) - opi th
+  | p => (length (prog th) - S (opi th)) + pcw ev sz p
+  end%nat.
+Definition msum (ev : Z) (sz : bool) (l : list thread) : nat := fold_right (fun th a => (mth ev sz th + a)%nat) 0%nat l.
+Definition has_tickets (s : st) : bool := Nat.ltb (npop s) (length (cells s)).
+Definition mu (s : st) : nat :=
+  (3 * length (faults s) + 6 * (length (cells s) - npop s) + msum (events s) (has_tickets s) (threads s))%nat.
+
+Lemma mth_nonowner : forall ev sz ev' sz' th, is_owner th = false -> mth ev sz th = mth ev' sz' th.
+Proof. intros ev sz ev' sz' th H. unfold mth, is_owner in *. destruct (tpc th); try discriminate; reflexivity. Qed.
+
+Lemma msum_app : forall ev sz a b, msum ev sz (a ++ b) = (msum ev sz a + msum ev sz b)%nat.
+Proof. induction a as [|x a IH]; intro b; simpl; [reflexivity | rewrite IH; lia]. Qed.
+
+Lemma msum_ext : forall ev sz ev' sz' l, (forall t0 x, nth_error l t0 = Some x -> mth ev sz x = mth ev' sz' x) ->
+  msum ev sz l = msum ev' sz' l.
+Proof.
+  induction l as [|y l IH]; intro H; simpl; [reflexivity|].
+  rewrite (H 0%nat y eq_refl). rewrite IH; [reflexivity|]. intros t0 x Hx. apply (H (S t0) x Hx).
+Qed.
+
+Lemma msum_install : forall ev sz ev' sz' l t th th' sp, nth_error l t = Some th ->
+  (forall t0 x, t0 <> t -> nth_error l t0 = Some x -> mth ev sz x = mth ev' sz' x) ->
+  (msum ev' sz' (upd_nth (fun _ => th') t l ++ sp) + mth ev sz th =
+   msum ev sz l + mth ev' sz' th' + msum ev' sz' sp)%nat.
+Proof.
+  intros ev sz ev' sz' l t th th' sp. rewrite msum_app. revert t.
+  induction l as [|y l IH]; intros [|t] H Hoth; simpl in *; try discriminate.
+  - inversion H; subst. rewrite (msum_ext ev sz ev' sz' l); [lia|].
+    intros t0 x Hx. apply (Hoth (S t0) x); [lia | exact Hx].
+  - rewrite (Hoth 0%nat y); [|lia|reflexivity].
+    assert (E := IH t H (fun t0 x N Hx => Hoth (S t0) x (fun Q => N (eq_add_S _ _ Q)) Hx)). lia.
+Qed.
+
+Lemma pquiet_all_published : forall s, AllInv s -> pquiet s = true ->
+  forall k x, nth_error (cells s) k = Some x -> cpub x = true.
+Proof.
+  intros s HA Q k x Hn. destruct (cpub x) eqn:P; [reflexivity|]. exfalso.
+  assert (S : csig x = false).
+  { destruct (csig x) eqn:S; [|reflexivity]. rewrite (c_sigpub _ (a_cov _ HA) _ _ Hn S) in P. discriminate. }
+  destruct (a_unsig _ HA _ _ Hn S) as (th & H0 & Pc & _).
+  pose proof (forallb_nth _ _ _ _ _ Q H0) as Qt. unfold pquiet_thread, producer_pc in Qt.
+  destruct Pc as [Pc|Pc]; rewrite Pc in Qt; discriminate.
+Qed.
+
+Lemma empty_poll_no_tickets : forall s, (forall k x, nth_error (cells s) k = Some x -> cpub x = true) ->
+  ready_prefix (skipn (npop s) (cells s)) = 0%nat -> has_tickets s = false.
+Proof.
+  intros s AP R. unfold has_tickets. apply Nat.ltb_ge.
+  destruct (Nat.lt_ge_cases (npop s) (length (cells s))) as [L|L]; [|exact L]. exfalso.
+  destruct (nth_error (cells s) (npop s)) as [x|] eqn:E; [|apply nth_error_None in E; lia].
+  rewrite (skipn_nth _ _ _ _ E) in R. simpl in R. rewrite (AP _ _ E) in R. discriminate.
+Qed.
+
+Ltac others_same HO Hth :=
+  let t0 := fresh "t0" in let x := fresh "x" in let N := fresh "N" in let Hx := fresh "Hx" in
+  intros t0 x N Hx;
+  first [ reflexivity
+        | apply mth_nonowner; destruct (is_owner x) eqn:?; [exfalso|reflexivity];
+          eapply (two_owners_absurd _ _ _ t0 x HO Hth); eauto;
+          match goal with H : tpc _ = _ |- _ => owner_of H end ].
+
+Lemma pquiet_decrease : forall s t s', AllInv s -> pquiet s = true -> step s t = Some s' -> (mu s' < mu s)%nat.
+Proof.
+  intros s t s' HA Q Hs. step_setup Hs s t. pose proof (a_own _ HA) as HO.
+  pose proof (forallb_nth _ _ _ _ _ Q Hth) as Qt.
+  pose proof (pquiet_all_published s HA Q) as AP.
+  pose proof (ready_prefix_le (skipn (npop s) (cells s))) as RL. rewrite skipn_length in RL.
+  assert (NP : producer_pc th = false).
+  { unfold pquiet_thread in Qt. apply andb_true_iff in Qt. destruct Qt as [Qt' _]. apply negb_true_iff in Qt'. exact Qt'. }
+  unfold mu.
+  step_cases Hst; unfold producer_pc in NP;
+    try (match goal with H : tpc _ = _ |- _ => rewrite H in NP; discriminate NP end);
+    try (match goal with Hp : tpc ?th0 = Idle, H : nth_error (prog ?th0) (opi ?th0) = Some _ |- _ =>
+           destruct (pquiet_idle_op _ _ Qt Hp H) as [Eo _]; discriminate Eo end).
+  all: match type of Hth with nth_error (threads ?s0) ?tt = Some ?th0 =>
+         match goal with |- context [install ?s1 tt ?th' ?sp] =>
+           pose proof (msum_install (events s0) (has_tickets s0) (events s1) (has_tickets s1) (threads s0) tt th0 th' sp
+                         Hth) as MS
+         end end.
+  all: unfold install in *; simpl in *.
+  all: match type of MS with ?A -> _ => assert (OT : A) by (unfold has_tickets; simpl; others_same HO Hth) end;
+       specialize (MS OT); clear OT.
+  all: pose proof (c_cap _ (a_cov _ HA)) as CAP.
+  all: unfold has_tickets in *; simpl in *; rewrite ?Nat2Z.id in *.
+  all: try match goal with H : nth_error (prog ?th0) (opi ?th0) = Some _ |- _ =>
+             assert (opi th0 < length (prog th0))%nat by (apply nth_error_Some; congruence) end.
+  all: try match goal with |- context [tl (faults ?s0)] => destruct (faults s0) eqn:?; simpl in * end.
+  all: unfold mth in MS; simpl in MS; repeat match goal with H : tpc _ = _ |- _ => rewrite H in MS end; simpl in MS.
+  all: rewrite ?g_exit_expected, ?g_rb_expected in *.
+  all: unfold cas_late in *;
+       repeat match type of MS with context [?a =? ?b] => destruct (a =? b) eqn:? end; zb; try lia.
+  all: match goal with |- context [(npop ?s0 <? length (cells ?s0))%nat] =>
+         destruct (npop s0 <? length (cells s0))%nat eqn:LT; [apply Nat.ltb_lt in LT | apply Nat.ltb_ge in LT] end;
+       try lia.
+  all: try (match goal with H : context [if ?b then _ else _] |- _ =>
+              destruct b eqn:G; [apply Z.gtb_lt in G | rewrite Z.gtb_ltb in G; apply Z.ltb_ge in G] end; lia).
+  all: exfalso; match goal with AP : forall k x, nth_error (cells ?s0) k = Some x -> cpub x = true |- _ =>
+         pose proof (empty_poll_no_tickets s0 AP) as NT end;
+       unfold has_tickets in NT; rewrite Nat.ltb_ge in NT; assert (length (cells _) <= npop _)%nat by (apply NT; lia); lia.
+Qed.
+
+(* in a producers-quiet state an unfinished thread never leaves everybody blocked - whatever the fault history *)
+Lemma pquiet_enabled : forall s, AllInv s -> pquiet s = true -> all_done s = false -> exists t, step s t <> None.
+Proof.
+  intros s HA Q Hnd.
+  destruct (Z.eq_dec (events s) 0) as [Hev|Hev].
+  2:{ destruct (a_own _ HA) as [A0 A1 A2]. destruct (owners_exists (threads s)) as (t & th & H & Ho); [rewrite A2; lia|].
+      exists t. eapply owner_enabled; eauto. }
+  unfold all_done in Hnd. apply forallb_false_ex in Hnd. destruct Hnd as (t & th & Hth & Hd).
+  pose proof (not_owner_of_zero _ _ _ (a_own _ HA) Hev Hth) as NO.
+  pose proof (forallb_nth _ _ _ _ _ Q Hth) as Qt.
+  unfold thread_done in Hd. unfold is_owner in NO.
+  destruct (tpc th) eqn:Epc; try discriminate.
+  - exists t. unfold step. rewrite Hth. unfold step_thread. rewrite Epc.
+    destruct (nth_error (prog th) (opi th)) as [o|] eqn:Eo; [|discriminate Hd].
+    destruct (pquiet_idle_op _ _ Qt Epc Eo) as [-> _]. rewrite g_join, Hev. simpl. discriminate.
+  - unfold pquiet_thread, producer_pc in Qt. rewrite Epc in Qt. discriminate.
+  - unfold pquiet_thread, producer_pc in Qt. rewrite Epc in Qt. discriminate.
+Qed.
+
+(* number of picks of a schedule that are actual steps (a pick of a disabled thread is skipped) *)
+Fixpoint taken (s : st) (sch : list nat) : nat :=
+  match sch with
+  | [] => 0%nat
+  | t :: r => match step s t with Some s' => S (taken s' r) | None => taken s r end
+  end.
+
+Lemma run_keeps : forall sch s, AllInv s -> pquiet s = true ->
+  AllInv (run st step s sch) /\ pquiet (run st step s sch) = true.
+Proof.
+  induction sch as [|t r IH]; intros s HA Q; simpl; [auto|].
+  unfold step_or_stay. destruct (step s t) as [s'|] eqn:E; [|apply IH; auto].
+  apply IH; [eapply all_step; eauto | eapply pquiet_step; eauto].
+Qed.
+
+(* from a producers-quiet state at most mu(s) further steps can be taken at all, under any schedule *)
+Theorem eq_quiet_steps_bounded : forall sch s, AllInv s -> pquiet s = true ->
+  (taken s sch + mu (run st step s sch) <= mu s)%nat.
+Proof.
+  induction sch as [|t r IH]; intros s HA Q; simpl; [lia|].
+  unfold step_or_stay. destruct (step s t) as [s'|] eqn:E; [|apply IH; auto].
+  pose proof (pquiet_decrease _ _ _ HA Q E). 
+  assert (taken s' r + mu (run st step s' r) <= mu s')%nat by (apply IH; [eapply all_step; eauto | eapply pquiet_step; eauto]).
+  lia.
+Qed.
+
+(* infinite schedules and weak fairness: every thread is, again and again, either picked or not enabled
+   (equivalently: a thread that stays enabled for ever from some point on is eventually picked) *)
+Definition state_at (s : st) (f : nat -> nat) (n : nat) : st := run st step s (map f (seq 0 n)).
+Definition weakly_fair (s : st) (f : nat -> nat) : Prop :=
+  forall n t, exists m, (n <= m)%nat /\ (f m = t \/ step (state_at s f m) t = None).
+
+Lemma state_at_S : forall s f n, state_at s f (S n) = step_or_stay st step (state_at s f n) (f n).
+Proof. intros. unfold state_at. rewrite seq_S, map_app, run_app. reflexivity. Qed.
+
+Lemma state_at_keeps : forall s f n, AllInv s -> pquiet s = true ->
+  AllInv (state_at s f n) /\ pquiet (state_at s f n) = true.
+Proof. intros. apply run_keeps; auto. Qed.
+
+Lemma mu_state_at_S : forall s f n, AllInv s -> pquiet s = true ->
+  (mu (state_at s f (S n)) <= mu (state_at s f n))%nat /\
+  (step (state_at s f n) (f n) <> None -> mu (state_at s f (S n)) < mu (state_at s f n))%nat.
+Proof.
+  intros s f n HA Q. destruct (state_at_keeps s f n HA Q) as [HA' Q']. rewrite state_at_S. unfold step_or_stay.
+  destruct (step (state_at s f n) (f n)) as [s'|] eqn:E.
+  - pose proof (pquiet_decrease _ _ _ HA' Q' E). split; [lia | intros _; lia].
+  - split; [lia | congruence].
+Qed.
+
+(* between index n, where t is enabled, and an index m >= n at which t is picked or disabled, some pick is a step *)
+Lemma effective_step_between : forall s f d n m t, (m = n + d)%nat ->
+  step (state_at s f n) t <> None -> (f m = t \/ step (state_at s f m) t = None) ->
+  exists j, (n <= j <= m)%nat /\ step (state_at s f j) (f j) <> None.
+Proof.
+  intros s f d. induction d as [|d IH]; intros n m t Hm En Hfm.
+  - replace m with n in * by lia. destruct Hfm as [<-|N]; [|contradiction]. exists n. split; [lia | exact En].
+  - destruct (step (state_at s f n) (f n)) as [s'|] eqn:E.
+    + exists n. split; [lia | congruence].
+    + assert (Same : state_at s f (S n) = state_at s f n) by (rewrite state_at_S; unfold step_or_stay; rewrite E; reflexivity).
+      destruct (IH (S n) m t) as (j & Lj & Ej); [lia | rewrite Same; exact En | exact Hfm|].
+      exists j. split; [lia | exact Ej].
+Qed.
+
+(* "join() does return": from a producers-quiet reachable state, every weakly fair schedule brings every thread to
+   its end - every pending and every later join() has returned - within finitely many picks *)
+Theorem eq_fair_termination : forall c a fl progs s f, (1 <= c)%nat -> Reach c a fl progs s -> pquiet s = true ->
+  weakly_fair s f -> exists n, all_done (state_at s f n) = true.
+Proof.
+  intros c a fl progs s f Hc HR Q WF. pose proof (reach_all _ _ _ _ _ Hc HR) as HA.
+  assert (G : forall k n, (mu (state_at s f n) <= k)%nat -> exists n', all_done (state_at s f n') = true).
+  { induction k as [|k IH]; intros n Hk.
+    - destruct (all_done (state_at s f n)) eqn:D; [eauto|]. exfalso.
+      destruct (state_at_keeps s f n HA Q) as [HA' Q'].
+      destruct (pquiet_enabled _ HA' Q' D) as [t Et].
+      destruct (step (state_at s f n) t) as [s'|] eqn:E; [|congruence].
+      pose proof (pquiet_decrease _ _ _ HA' Q' E). lia.
+    - destruct (all_done (state_at s f n)) eqn:D; [eauto|].
+      destruct (state_at_keeps s f n HA Q) as [HA' Q'].
+      destruct (pquiet_enabled _ HA' Q' D) as [t Et].
+      destruct (WF n t) as (m & Lm & Hm).
+      destruct (effective_step_between s f (m - n) n m t) as (j & Lj & Ej); [lia | exact Et | exact Hm|].
+      assert (Mono : forall d, (mu (state_at s f (n + d)) <= mu (state_at s f n))%nat).
+      { induction d as [|d IHd]; [rewrite Nat.add_0_r; lia|].
+        replace (n + S d)%nat with (S (n + d)) by lia. pose proof (proj1 (mu_state_at_S s f (n + d) HA Q)). lia. }
+      pose proof (Mono (j - n)%nat) as Mj. replace (n + (j - n))%nat with j in Mj by lia.
+      pose proof (proj2 (mu_state_at_S s f j HA Q) Ej).
+      apply (IH (S j)). lia. }
+  apply (G (mu s) 0%nat). unfold state_at. simpl. lia.
+Qed.
+
+Theorem eq_quiet_steps_bounded_reach : forall c a fl progs s sch, (1 <= c)%nat -> Reach c a fl progs s ->
+  pquiet s = true -> (taken s sch + mu (run st step s sch) <= mu s)%nat.
+Proof. intros. apply eq_quiet_steps_bounded; [eapply reach_all; eauto | assumption]. Qed.
+
+Theorem eq_quiet_enabled_reach : forall c a fl progs s, (1 <= c)%nat -> Reach c a fl progs s ->
+  pquiet s = true -> all_done s = false -> exists t, step s t <> None.
+Proof. intros. apply pquiet_enabled; [eapply reach_all; eauto | assumption | assumption]. Qed.
+
+(* non-vacuity: the producer is through, its consumer is launched but has not run, join() is waiting *)
+Definition waiting_progs : list (list op) := [[OExec; OJoin]].
+Definition waiting_state : st := run st step (init 2 true [] waiting_progs) [0; 0; 0; 0]%nat.
+Lemma waiting_example : Reach 2 true [] waiting_progs waiting_state /\ pquiet waiting_state = true /\
+  all_done waiting_state = false /\ events waiting_state = 1 /\ step waiting_state 0 = None /\ mu waiting_state = 18%nat.
+Proof. split; [exists [0; 0; 0; 0]%nat; unfold waiting_state; reflexivity | vm_compute; repeat split; eauto]. Qed.
 
 (* non-vacuity: a refused launch, a later accepted signal, everything consumed *)
 Definition resume_progs : list (list op) := [[OExec; OSignal; OJoin]].
